@@ -60,6 +60,10 @@ type world struct {
 	expSig   []byte // R || r + H(R,A,m)*a computed from the shared secrets
 	refSig   []byte // first signature any participant produced
 	refWho   string
+	a, r, h  kyber.Scalar            // the shared secrets and H(R||A||m) (known to the harness only)
+	prev     *world                  // another sharing of the same long-term key used earlier in this process
+	cache    map[int]*dss.PartialSig // one valid PartialSig object per signer, delivered to many DSS objects
+	sessions int
 }
 
 type rngStream struct{ r *vh.Rng }
@@ -115,7 +119,17 @@ func newWorld(group, kind string, n, t int, rng *vh.Rng) (*world, error) {
 	}
 	w.msg = rng.Bytes(rng.Intn(40))
 	w.otherMsg = append(append([]byte{}, w.msg...), 0x21)
-	// the signature the property demands: R || r + H(R||A||m)*a
+	if err := w.finish(); err != nil {
+		return nil, err
+	}
+	return w, nil
+}
+
+// finish computes, from all shares, the signature the property demands:
+// R || r + H(R||A||m)*a
+func (w *world) finish() error {
+	n, t := w.n, w.t
+	w.cache = map[int]*dss.PartialSig{}
 	var ls, rs []*share.PriShare
 	for i := 0; i < n; i++ {
 		ls = append(ls, w.long[i].PriShare())
@@ -123,15 +137,15 @@ func newWorld(group, kind string, n, t int, rng *vh.Rng) (*world, error) {
 	}
 	a, err := share.RecoverSecret(w.suite, ls, uint32(t), uint32(n))
 	if err != nil {
-		return nil, err
+		return err
 	}
 	r, err := share.RecoverSecret(w.suite, rs, uint32(t), uint32(n))
 	if err != nil {
-		return nil, err
+		return err
 	}
 	A, R := w.long[0].Commitments()[0], w.rnd[0].Commitments()[0]
 	if !A.Equal(w.suite.Point().Mul(a, nil)) || !R.Equal(w.suite.Point().Mul(r, nil)) {
-		return nil, fmt.Errorf("DKG output inconsistent: commitment[0] is not secret*B")
+		return fmt.Errorf("key generation inconsistent: commitment[0] is not secret*B")
 	}
 	hh := sha512.New()
 	_, _ = R.MarshalTo(hh)
@@ -143,7 +157,44 @@ func newWorld(group, kind string, n, t int, rng *vh.Rng) (*world, error) {
 	_, _ = R.MarshalTo(&b)
 	_, _ = s.MarshalTo(&b)
 	w.expSig = b.Bytes()
-	return w, nil
+	w.a, w.r, w.h = a, r, h
+	return nil
+}
+
+// reshared builds another sharing of the SAME long-term key (same secret and
+// public key, new polynomial, new shares, possibly another threshold): a real
+// Pedersen resharing when `real`, else a sharing built from a fresh polynomial.
+// The one-time key is either another sharing of the same one-time secret or a
+// fresh one.  Key-share objects of the participants, their keys and the message
+// buffer are the same Go objects as in the previous epoch.
+func (w *world) reshared(rng *vh.Rng, real, sameRandom bool, t2 int) (*world, error) {
+	v := &world{group: w.group, kind: w.kind, suite: w.suite, dl: w.dl, n: w.n, t: t2, secs: w.secs, pubs: w.pubs,
+		msg: w.msg, otherMsg: w.otherMsg, prev: w}
+	how := "synthetic"
+	if real {
+		var err error
+		if v.long, err = pedersenReshare(w.suite, w.secs, w.pubs, w.long, w.t, t2, rng.Bytes(32), rng.Bool()); err != nil {
+			return nil, err
+		}
+		how = "pedersen-reshare"
+	} else {
+		v.long = synthSharing(w.suite, w.a, t2, w.n)
+	}
+	if sameRandom {
+		v.rnd = synthSharing(w.suite, w.r, t2, w.n)
+		how += "+same-one-time-secret"
+	} else {
+		v.rnd = synthSharing(w.suite, w.suite.Scalar().Pick(w.suite.RandomStream()), t2, w.n)
+	}
+	v.rndOther = synthSharing(w.suite, w.suite.Scalar().Pick(w.suite.RandomStream()), t2, w.n)
+	v.name = fmt.Sprintf("%s/resharing(%s,t=%d)", w.name, how, t2)
+	if err := v.finish(); err != nil {
+		return nil, err
+	}
+	if !v.long[0].Commitments()[0].Equal(w.long[0].Commitments()[0]) {
+		return nil, fmt.Errorf("resharing changed the distributed public key")
+	}
+	return v, nil
 }
 
 func (w *world) newDSS(i int, rnd []dss.DistKeyShare, msg []byte) *dss.DSS {
@@ -161,6 +212,18 @@ func (w *world) honest(j int) *dss.PartialSig {
 		panic(err)
 	}
 	return ps
+}
+
+// shared returns a valid partial of signer j: half of the time the one
+// PartialSig object that is handed to many DSS objects of this world
+func (w *world) shared(j int, rng *vh.Rng) *dss.PartialSig {
+	if rng == nil || rng.Bool() {
+		return w.honest(j)
+	}
+	if w.cache[j] == nil {
+		w.cache[j] = w.honest(j)
+	}
+	return w.cache[j]
 }
 
 func (w *world) resign(ps *dss.PartialSig, key kyber.Scalar) {
@@ -183,6 +246,16 @@ type hop struct {
 var junkClasses = []string{"flip-sig", "flip-v", "forged-v", "resigned", "resigned-outsider", "wrong-index",
 	"other-session", "other-session-relabelled", "sid-relabel", "sid-random", "other-msg", "index-n", "index-max",
 	"short-sig", "empty-sig", "long-sig"}
+
+// classes that need an earlier sharing of the same long-term key
+var epochClasses = []string{"old-sharing-partial", "old-share-value", "old-share-value", "old-sharing-partial-relabelled"}
+
+func (w *world) junkClass(rng *vh.Rng) string {
+	if w.prev != nil && rng.Bool() {
+		return epochClasses[rng.Intn(len(epochClasses))]
+	}
+	return junkClasses[rng.Intn(len(junkClasses))]
+}
 
 func (w *world) junk(class string, rng *vh.Rng) *dss.PartialSig {
 	j := rng.Intn(w.n)
@@ -236,6 +309,21 @@ func (w *world) junk(class string, rng *vh.Rng) *dss.PartialSig {
 		ps.Signature = nil
 	case "long-sig":
 		ps.Signature = append(ps.Signature, byte(rng.Intn(256)))
+	case "old-sharing-partial":
+		// a partial signature issued under the previous sharing of the long-term key
+		o, _ := w.prev.newDSS(j, w.prev.rnd, w.msg).PartialSig()
+		return o
+	case "old-sharing-partial-relabelled":
+		o, _ := w.prev.newDSS(j, w.prev.rnd, w.msg).PartialSig()
+		ps.Partial = o.Partial
+		w.resign(ps, w.secs[j])
+	case "old-share-value":
+		// response computed for THIS session (one-time share, hash, session id) but with the
+		// signer's share of the previous sharing of the long-term key
+		v := w.suite.Scalar().Mul(w.h, w.prev.long[j].PriShare().V)
+		v.Add(v, w.rnd[j].PriShare().V)
+		ps.Partial.V = v
+		w.resign(ps, w.secs[j])
 	}
 	return ps
 }
@@ -248,7 +336,7 @@ func (w *world) history(c int, order []int, rng *vh.Rng, njunk int, allowEcho bo
 		if j == c {
 			h = append(h, hop{sign: true, class: "own", from: c})
 		} else {
-			h = append(h, hop{ps: w.honest(j), class: "honest", from: j})
+			h = append(h, hop{ps: w.shared(j, rng), class: "honest", from: j})
 		}
 	}
 	ins := func(x hop) {
@@ -260,13 +348,23 @@ func (w *world) history(c int, order []int, rng *vh.Rng, njunk int, allowEcho bo
 	for k := 0; k < njunk; k++ {
 		switch r := rng.Intn(10); {
 		case r < 6:
-			cl := junkClasses[rng.Intn(len(junkClasses))]
+			cl := w.junkClass(rng)
 			ins(hop{ps: w.junk(cl, rng), class: cl, from: -1})
 		case r < 8 && len(order) > 0:
 			// a second delivery of a valid partial of the history (fresh signature)
 			j := order[rng.Intn(len(order))]
 			if j != c {
-				ins(hop{ps: w.honest(j), class: "honest-again", from: j})
+				again := hop{ps: w.honest(j), class: "honest-again", from: j}
+				if rng.Bool() {
+					// the very same PartialSig object once more
+					for _, x := range h {
+						if !x.sign && x.from == j && x.ps != nil {
+							again = hop{ps: x.ps, class: "same-object-again", from: j}
+							break
+						}
+					}
+				}
+				ins(again)
 			} else {
 				ins(hop{sign: true, class: "own-again", from: c})
 			}
@@ -340,111 +438,225 @@ func (w *world) verifyAll(sig []byte) (string, error) {
 	return "", nil
 }
 
-// run drives one instance through the history, evaluates the oracles after
-// every call and returns what was observed.
-func (r *runner) run(w *world, c int, h []hop, desc map[string]interface{}) ([]step, []hop) {
-	rep := r.rep
-	d := w.newDSS(c, w.rnd, w.msg)
-	delivered := map[int]bool{}
-	echo := false
-	var out []step
-	fail := func(key, what string, k int) {
-		rp := map[string]interface{}{"world": w.name, "combiner": c, "history": desc, "at_call": k}
-		if k >= 0 && k < len(h) {
-			rp["call_class"] = h[k].class
-			rp["partial"] = psReplay(h[k].ps)
-		}
-		rep.Fail(key, what, rp)
+// session = one DSS object driven through its history one call at a time, so
+// that several objects (of one or several sessions / sharings) can be interleaved
+// in the same process.  The oracles are evaluated after every call.
+type session struct {
+	r         *runner
+	w         *world
+	c         int
+	h         []hop
+	desc      map[string]interface{}
+	d         *dss.DSS
+	delivered map[int]bool
+	echo      bool
+	out       []step
+	k         int
+	dead      bool
+	refused   bool // Signature() has refused at least once (polled before the threshold)
+	lastSig   []byte
+}
+
+func (r *runner) newSession(w *world, c int, h []hop, desc map[string]interface{}) *session {
+	return &session{r: r, w: w, c: c, h: h, desc: desc, d: w.newDSS(c, w.rnd, w.msg), delivered: map[int]bool{}}
+}
+
+func (s *session) done() bool { return s.dead || s.k >= len(s.h) }
+
+func (s *session) fail(key, what string) {
+	k := s.k
+	rp := map[string]interface{}{"world": s.w.name, "combiner": s.c, "history": s.desc, "at_call": k}
+	if k >= 0 && k < len(s.h) {
+		rp["call_class"] = s.h[k].class
+		rp["partial"] = psReplay(s.h[k].ps)
 	}
-	for k, o := range h {
-		var st step
-		if o.sign {
-			var ps *dss.PartialSig
-			var err error
-			if p, m := vh.Try(func() { ps, err = d.PartialSig() }); p {
-				fail("dss.PartialSig/panic", m, k)
-				return out, h[:k]
-			}
-			if err != nil || ps == nil {
-				fail("dss.PartialSig/error", fmt.Sprint(err), k)
-				return out, h[:k]
-			}
-			h[k].ps = ps
-			delivered[c] = true
-			st.res = "sign"
-			// the own partial must be acceptable to the others
-			if ps.Partial.I != uint32(c) {
-				fail("dss.PartialSig/wrong-index", fmt.Sprintf("index %d issued by participant %d", ps.Partial.I, c), k)
-			}
-		} else {
-			var err error
-			if p, m := vh.Try(func() { err = d.ProcessPartialSig(o.ps) }); p {
-				fail("dss.ProcessPartialSig/panic/"+o.class, m, k)
-				return out, h[:k]
-			}
-			st.cls = classify(err)
-			rep.Dist(fmt.Sprintf("verdict:%s:%d", o.class, st.cls))
-			if o.from >= 0 {
-				if o.from == c {
-					echo = true
-				}
-				if delivered[o.from] {
-					if err == nil {
-						fail("dss.ProcessPartialSig/duplicate-accepted", "a second partial signature of the same signer was accepted", k)
-					}
-				} else if err != nil {
-					fail("dss.ProcessPartialSig/valid-partial-rejected", err.Error(), k)
-				}
-				delivered[o.from] = true
-			} else if err == nil {
-				fail("dss.ProcessPartialSig/"+o.class+"-accepted", "an invalid partial signature was accepted", k)
+	var cl []string
+	for _, o := range s.h[:min(k+1, len(s.h))] {
+		cl = append(cl, o.class)
+	}
+	rp["calls_so_far"] = cl
+	s.r.rep.Fail(key, what, rp)
+}
+
+func clonePs(ps *dss.PartialSig) *dss.PartialSig {
+	return &dss.PartialSig{Partial: ps.Partial, SessionID: append([]byte{}, ps.SessionID...), Signature: append([]byte{}, ps.Signature...)}
+}
+
+func psDigest(ps *dss.PartialSig) string {
+	if ps == nil || ps.Partial == nil {
+		return "nil"
+	}
+	return fmt.Sprintf("%d|%s|%x|%x", ps.Partial.I, ps.Partial.V.String(), ps.SessionID, ps.Signature)
+}
+
+// digest of everything the caller handed to the package for this world: keys,
+// key shares, commitments, message buffers
+func (w *world) digest() string {
+	h := sha256.New()
+	for i := range w.secs {
+		fmt.Fprintf(h, "%s|%s|", w.secs[i].String(), w.pubs[i].String())
+	}
+	for _, ks := range [][]dss.DistKeyShare{w.long, w.rnd, w.rndOther} {
+		for _, k := range ks {
+			fmt.Fprintf(h, "%d:%s|", k.PriShare().I, k.PriShare().V.String())
+			for _, p := range k.Commitments() {
+				fmt.Fprintf(h, "%s,", p.String())
 			}
 		}
-		st.enough = d.EnoughPartialSig()
-		var sig []byte
-		var serr error
-		if p, m := vh.Try(func() { sig, serr = d.Signature() }); p {
-			fail("dss.Signature/panic", m, k)
-			return out, h[:k]
+	}
+	h.Write(w.msg)
+	h.Write([]byte{0})
+	h.Write(w.otherMsg)
+	return string(h.Sum(nil))
+}
+
+// step performs call k of the history and evaluates the oracles.
+func (s *session) step(rng *vh.Rng) {
+	w, c, d, rep := s.w, s.c, s.d, s.r.rep
+	if s.done() {
+		return
+	}
+	o := s.h[s.k]
+	before := w.digest()
+	var st step
+	if o.sign {
+		var ps *dss.PartialSig
+		var err error
+		if p, m := vh.Try(func() { ps, err = d.PartialSig() }); p {
+			s.fail("dss.PartialSig/panic", m)
+			s.dead = true
+			return
 		}
+		if err != nil || ps == nil {
+			s.fail("dss.PartialSig/error", fmt.Sprint(err))
+			s.dead = true
+			return
+		}
+		if len(s.delivered) > 0 && !s.delivered[c] {
+			rep.Dist("reuse:partials-received-before-own-PartialSig")
+		}
+		// the caller owns the returned signature bytes: keep a copy, scribble over the original
+		keep := clonePs(ps)
+		for i := range ps.Signature {
+			ps.Signature[i] ^= 0xa5
+		}
+		s.h[s.k].ps = keep
+		s.delivered[c] = true
+		st.res = "sign"
+		if keep.Partial.I != uint32(c) {
+			s.fail("dss.PartialSig/wrong-index", fmt.Sprintf("index %d issued by participant %d", keep.Partial.I, c))
+		}
+	} else {
+		// deliver a private copy of the byte buffers (the PriShare object itself is
+		// shared: the same partial is delivered to several objects / several times)
+		in := clonePs(o.ps)
+		dg := psDigest(in)
+		var err error
+		if p, m := vh.Try(func() { err = d.ProcessPartialSig(in) }); p {
+			s.fail("dss.ProcessPartialSig/panic/"+o.class, m)
+			s.dead = true
+			return
+		}
+		if psDigest(in) != dg || psDigest(o.ps) != dg {
+			s.fail("dss.ProcessPartialSig/inputs-mutated", "the received PartialSig was modified by the call")
+		}
+		// the caller re-uses its buffers after the call
+		for i := range in.Signature {
+			in.Signature[i] = 0xee
+		}
+		for i := range in.SessionID {
+			in.SessionID[i] = 0xdd
+		}
+		rep.Dist("reuse:caller-buffers-overwritten-after-ProcessPartialSig")
+		st.cls = classify(err)
+		rep.Dist(fmt.Sprintf("verdict:%s:%d", o.class, st.cls))
+		if o.from >= 0 {
+			if o.from == c {
+				s.echo = true
+			}
+			if s.delivered[o.from] {
+				if err == nil {
+					s.fail("dss.ProcessPartialSig/duplicate-accepted", "a second partial signature of the same signer was accepted")
+				}
+			} else if err != nil {
+				s.fail("dss.ProcessPartialSig/valid-partial-rejected", err.Error())
+			}
+			s.delivered[o.from] = true
+		} else if err == nil {
+			s.fail("dss.ProcessPartialSig/"+o.class+"-accepted", "an invalid partial signature was accepted")
+		}
+	}
+	st.enough = d.EnoughPartialSig()
+	var sig []byte
+	var serr error
+	if p, m := vh.Try(func() { sig, serr = d.Signature() }); p {
+		s.fail("dss.Signature/panic", m)
+		s.dead = true
+		return
+	}
+	if serr == nil {
+		st.sig = append([]byte{}, sig...)
+		// the returned buffer belongs to the caller: overwriting it must not change later answers
+		for i := range sig {
+			sig[i] = 0x77
+		}
+		sig = st.sig
+		if s.lastSig != nil && !bytes.Equal(s.lastSig, sig) {
+			s.fail("dss.Signature/changes-between-calls", "got "+vh.Hex(sig)+" after "+vh.Hex(s.lastSig))
+		}
+		if s.lastSig == nil && s.refused {
+			rep.Dist("reuse:Signature-polled-before-and-after-threshold-on-one-object")
+		}
+		s.lastSig = sig
+	} else {
+		s.refused = true
+	}
+	nd := len(s.delivered)
+	if nd < w.t {
 		if serr == nil {
-			st.sig = sig
+			s.fail("dss.Signature/below-threshold", fmt.Sprintf("signature produced from %d < t=%d valid partials", nd, w.t))
 		}
-		nd := len(delivered)
-		if nd < w.t {
-			if serr == nil {
-				fail("dss.Signature/below-threshold", fmt.Sprintf("signature produced from %d < t=%d valid partials", nd, w.t), k)
-			}
-			if st.enough {
-				if echo {
-					rep.Dist("quirk:EnoughPartialSig-true-below-t(own partial received and issued: counted twice; Signature() refuses)")
-				} else {
-					fail("dss.EnoughPartialSig/true-below-threshold", fmt.Sprintf("%d < t=%d valid partials", nd, w.t), k)
-				}
-			}
-		} else {
-			if !st.enough {
-				fail("dss.EnoughPartialSig/false-with-t-valid", fmt.Sprintf("%d >= t=%d valid partials", nd, w.t), k)
-			}
-			if serr != nil {
-				fail("dss.Signature/refused-with-t-valid", serr.Error(), k)
+		if st.enough {
+			if s.echo {
+				rep.Dist("quirk:EnoughPartialSig-true-below-t(own partial received and issued: counted twice; Signature() refuses)")
 			} else {
-				if who, err := w.verifyAll(sig); err != nil {
-					fail("dss.Signature/rejected-by-"+who, err.Error()+" sig="+vh.Hex(sig), k)
-				}
-				if !bytes.Equal(sig, w.expSig) {
-					fail("dss.Signature/not-the-schnorr-signature", "got "+vh.Hex(sig)+" want "+vh.Hex(w.expSig), k)
-				}
-				if w.refSig == nil {
-					w.refSig, w.refWho = sig, fmt.Sprintf("combiner %d %v", c, desc)
-				} else if !bytes.Equal(sig, w.refSig) {
-					fail("dss.Signature/participants-disagree", "got "+vh.Hex(sig)+" but "+w.refWho+" got "+vh.Hex(w.refSig), k)
-				}
+				s.fail("dss.EnoughPartialSig/true-below-threshold", fmt.Sprintf("%d < t=%d valid partials", nd, w.t))
 			}
 		}
-		out = append(out, st)
+	} else {
+		if !st.enough {
+			s.fail("dss.EnoughPartialSig/false-with-t-valid", fmt.Sprintf("%d >= t=%d valid partials", nd, w.t))
+		}
+		if serr != nil {
+			s.fail("dss.Signature/refused-with-t-valid", serr.Error())
+		} else {
+			if who, err := w.verifyAll(sig); err != nil {
+				s.fail("dss.Signature/rejected-by-"+who, err.Error()+" sig="+vh.Hex(sig))
+			}
+			if !bytes.Equal(sig, w.expSig) {
+				s.fail("dss.Signature/not-the-schnorr-signature", "got "+vh.Hex(sig)+" want "+vh.Hex(w.expSig))
+			}
+			if w.refSig == nil {
+				w.refSig, w.refWho = sig, fmt.Sprintf("combiner %d %v", c, s.desc)
+			} else if !bytes.Equal(sig, w.refSig) {
+				s.fail("dss.Signature/participants-disagree", "got "+vh.Hex(sig)+" but "+w.refWho+" got "+vh.Hex(w.refSig))
+			}
+		}
 	}
-	return out, h
+	if w.digest() != before {
+		s.fail("dss/inputs-mutated", "keys, key shares, commitments or message buffers handed to the package changed during the call")
+	}
+	s.out = append(s.out, st)
+	s.k++
+}
+
+// run drives one instance through its whole history.
+func (r *runner) run(w *world, c int, h []hop, desc map[string]interface{}) ([]step, []hop) {
+	s := r.newSession(w, c, h, desc)
+	for !s.done() {
+		s.step(nil)
+	}
+	return s.out, s.h[:len(s.out)]
 }
 
 // ---------------------------------------------------------------- Coq case emission (dlog worlds)
@@ -585,7 +797,38 @@ type gen struct {
 }
 
 func (g *gen) one(w *world, c int, h []hop, desc map[string]interface{}) {
-	obs, hh := g.r.run(w, c, h, desc)
+	s := g.r.newSession(w, c, h, desc)
+	g.begin(s)
+	for !s.done() {
+		s.step(nil)
+	}
+	g.finish(s)
+}
+
+func (g *gen) begin(s *session) {
+	w := s.w
+	if w.sessions > 0 {
+		g.rep.Dist("reuse:later-session-on-the-same-keyshare-objects-keys-and-msg-buffer")
+	}
+	w.sessions++
+	seen := map[*dss.PartialSig]bool{}
+	for _, o := range s.h {
+		if o.sign || o.ps == nil {
+			continue
+		}
+		if seen[o.ps] {
+			g.rep.Dist("reuse:same-PartialSig-object-delivered-twice-to-one-DSS-object")
+		}
+		seen[o.ps] = true
+		if o.from >= 0 && w.cache[o.from] == o.ps {
+			g.rep.Dist("reuse:same-PartialSig-object-delivered-to-several-DSS-objects")
+		}
+	}
+}
+
+func (g *gen) finish(s *session) {
+	w, c, desc := s.w, s.c, s.desc
+	obs, hh := s.out, s.h[:len(s.out)]
 	var cl []string
 	for _, o := range hh {
 		cl = append(cl, o.class)
@@ -605,6 +848,95 @@ func (g *gen) one(w *world, c int, h []hop, desc map[string]interface{}) {
 		if len(cl) > 3 {
 			g.rep.Sample(desc2)
 		}
+	}
+}
+
+// several DSS objects alive at the same time in one process, their calls
+// interleaved at random; every object must behave exactly as if it were alone
+func (g *gen) interleaved(rng *vh.Rng, ss []*session, pattern string) {
+	for _, s := range ss {
+		s.desc["interleaved_with"] = len(ss) - 1
+		s.desc["pattern"] = pattern
+		g.begin(s)
+	}
+	g.rep.Dist("reuse:" + pattern)
+	for {
+		var live []*session
+		for _, s := range ss {
+			if !s.done() {
+				live = append(live, s)
+			}
+		}
+		if len(live) == 0 {
+			break
+		}
+		live[rng.Intn(len(live))].step(rng)
+	}
+	for _, s := range ss {
+		g.finish(s)
+	}
+}
+
+func (g *gen) randomSession(w *world, c int, rng *vh.Rng, njunk int) *session {
+	extra := 0
+	if w.n > w.t {
+		extra = rng.Intn(w.n - w.t + 1)
+	}
+	sg := shuffled(rng, seq(w.n))[:w.t+extra]
+	return g.r.newSession(w, c, w.history(c, sg, rng, njunk, true), map[string]interface{}{"signers": sg, "order": "random", "junk": njunk})
+}
+
+// sessions over two sharings of the same long-term key (w2 = w reshared), one
+// after the other and interleaved, in the same process; plus several objects of
+// one participant in one session
+func (g *gen) epochs(w, w2 *world, rng *vh.Rng) {
+	how := "synthetic-resharing"
+	if strings.Contains(w2.name, "pedersen-reshare") {
+		how = "pedersen-resharing"
+	}
+	if strings.Contains(w2.name, "same-one-time-secret") {
+		how += "+same-one-time-secret"
+	}
+	if w2.t != w.t {
+		how += "+other-threshold"
+	}
+	// (1) after the sessions of the old sharing: sessions of the new one, every participant as combiner
+	for c := 0; c < w2.n; c++ {
+		s := g.randomSession(w2, c, rng, 2+rng.Intn(3))
+		s.desc["pattern"] = "session-after-resharing"
+		g.begin(s)
+		for !s.done() {
+			s.step(rng)
+		}
+		g.finish(s)
+		g.rep.Dist("reuse:sessions-of-two-sharings-of-one-key-sequential:" + how)
+	}
+	// (2) ... the old sharing is still usable afterwards (its own sessions are unaffected)
+	{
+		s := g.randomSession(w, rng.Intn(w.n), rng, 1)
+		s.desc["pattern"] = "old-sharing-session-after-new-sharing-was-used"
+		g.begin(s)
+		for !s.done() {
+			s.step(rng)
+		}
+		g.finish(s)
+	}
+	// (3) objects of both sharings alive together
+	for k := 0; k < 2; k++ {
+		c := rng.Intn(w.n)
+		g.interleaved(rng, []*session{g.randomSession(w, c, rng, rng.Intn(3)), g.randomSession(w2, c, rng, rng.Intn(3))},
+			"sessions-of-two-sharings-of-one-key-interleaved:"+how)
+	}
+	// (4) two objects of the same participant in the same session, and objects of different participants
+	{
+		c := rng.Intn(w2.n)
+		g.interleaved(rng, []*session{g.randomSession(w2, c, rng, rng.Intn(3)), g.randomSession(w2, c, rng, rng.Intn(3))},
+			"two-DSS-objects-of-one-participant-in-one-session-interleaved")
+		var ss []*session
+		for c := 0; c < w.n; c++ {
+			ss = append(ss, g.randomSession(w, c, rng, rng.Intn(2)))
+		}
+		g.interleaved(rng, ss, "all-participants-of-one-session-interleaved")
 	}
 }
 
@@ -670,6 +1002,29 @@ func (g *gen) world(w *world, rng *vh.Rng, exhaustive bool, orders int) {
 	}
 }
 
+// another sharing of w's long-term key (real Pedersen resharing or a fresh
+// polynomial through the same secret; same or other threshold; same or fresh
+// one-time secret), then the multi-session scenarios
+func (g *gen) resharings(w *world, rng *vh.Rng, real bool) {
+	t2 := w.t
+	switch rng.Intn(3) {
+	case 0:
+		if w.t < w.n {
+			t2 = w.t + 1
+		}
+	case 1:
+		if w.t > 2 {
+			t2 = w.t - 1
+		}
+	}
+	w2, err := w.reshared(rng, real, rng.Bool(), t2)
+	if err != nil {
+		g.rep.Fail("dkg/resharing-failed", err.Error(), map[string]interface{}{"world": w.name, "t2": t2, "real": real})
+		return
+	}
+	g.epochs(w, w2, rng)
+}
+
 func seq(n int) []int {
 	o := make([]int, n)
 	for i := range o {
@@ -728,6 +1083,7 @@ func main() {
 				g.one(w, c, h, map[string]interface{}{"signers": s, "order": "random", "search": true})
 			}
 			g.world(w, rng, false, 1)
+			g.resharings(w, rng, rng.Bool())
 		}
 		rep.Write(o.Out)
 		return
@@ -748,6 +1104,7 @@ func main() {
 			for k := 0; k < nk; k++ {
 				if w := mk("dlog", kinds[(ki+k)%4], n, t); w != nil {
 					g.world(w, rng, exhaustive, 3)
+					g.resharings(w, rng, (ki+k)%2 == 0)
 				}
 			}
 			ki++
@@ -758,6 +1115,7 @@ func main() {
 			}
 			if w := mk("ed25519", kinds[ki%4], n, t); w != nil {
 				g.world(w, rng, exhaustive && (o.Thorough || n <= 4), edOrders)
+				g.resharings(w, rng, ki%2 == 0)
 			}
 		}
 	}
